@@ -98,15 +98,20 @@ example : lc exQ.A ≠ 0 := by decide +kernel
 
 /-! ## 4. Degrees (`−∞` for the zero polynomial, as SymPy) -/
 
-/-- `Ndegree` is the degree of the numerator `B` … -/
-theorem Ndegree_spec (R : RF K) : propNamed ndegreeArg ddegreeArg R "Ndegree" = some (sdegree R.B) := rfl
-/-- … `Ddegree` of the denominator `A` … -/
-theorem Ddegree_spec (R : RF K) : propNamed ndegreeArg ddegreeArg R "Ddegree" = some (sdegree R.A) := rfl
-/-- … `degree` the larger of the two … -/
-theorem degree_spec (R : RF K) :
+/- The four statements below are TABLE CHECKS: `rfl` on the constants generated from the source text (which polynomial
+   `Ndegree` / `Ddegree` read, the function and arguments of `degree`, the comparison of `is_strictly_proper`).  They are
+   regression guards that pin the regenerated table to the specification, not consequences of anything; what a degree MEANS is
+   proved in `degree_is_highest_power`, `degree_neg_inf`, `degree_is_root_count`, `strictly_proper_no_quotient`. -/
+
+/-- table check (rfl on the generated constant), not a consequence: `Ndegree` reads the numerator `B` … -/
+theorem Ndegree_table (R : RF K) : propNamed ndegreeArg ddegreeArg R "Ndegree" = some (sdegree R.B) := rfl
+/-- table check (rfl on the generated constant), not a consequence: … `Ddegree` reads the denominator `A` … -/
+theorem Ddegree_table (R : RF K) : propNamed ndegreeArg ddegreeArg R "Ddegree" = some (sdegree R.A) := rfl
+/-- table check (rfl on the generated constants), not a consequence: … `degree` is `max` of the two … -/
+theorem degree_table (R : RF K) :
     rfDegree degreeFn degreeArgs R = some (Deg.max (sdegree R.B) (sdegree R.A)) := rfl
-/-- … and `is_strictly_proper` says `deg B < deg A`. -/
-theorem strictly_proper_spec (R : RF K) :
+/-- table check (rfl on the generated constants), not a consequence: … and `is_strictly_proper` compares `deg B < deg A`. -/
+theorem strictly_proper_table (R : RF K) :
     isStrictlyProper ndegreeArg ddegreeArg sproper R = some (Deg.lt (sdegree R.B) (sdegree R.A)) := rfl
 
 /-- **strictly_proper_no_quotient**: for a strictly proper function the long division of `as_QMA` (hence
@@ -114,7 +119,7 @@ theorem strictly_proper_spec (R : RF K) :
 theorem strictly_proper_no_quotient (R : RF K) (hA : lc R.A ≠ 0)
     (h : isStrictlyProper ndegreeArg ddegreeArg sproper R = some true) (x : K) :
     Poly.eval (asQMA R).1 x = 0 ∧ Poly.eval (asQMA R).2.1 x = Poly.eval R.B x :=
-  strictlyProper_quotient R hA (by rw [strictly_proper_spec R] at h; exact Option.some.inj h) x
+  strictlyProper_quotient R hA (by rw [strictly_proper_table R] at h; exact Option.some.inj h) x
 example : isStrictlyProper ndegreeArg ddegreeArg sproper (⟨[1, 5], [4, 6, 2], 0, 0⟩ : RF ℚ) = some true := by
   decide +kernel
 
@@ -145,16 +150,18 @@ theorem as_N_D_monic_value (R : RF K) (env : Env K) (hE : IsExp env) (hA : Poly.
 example : Poly.eval exQ.A envQ.x ≠ 0 := by norm_num [exQ, envQ, Poly.eval]
 
 /-- **expandcanonical_src_value**: with the enumeration order (`reversed(all_coeffs())` = low power first) and the
-    divisor of every term as the source has them. -/
-theorem expandcanonical_src_value (R : RF K) (env : Env K) (hE : IsExp env) :
+    divisor of every term as the source has them; stated at non-pole points (`hA`), since every term is divided by `A`. -/
+theorem expandcanonical_src_value (R : RF K) (env : Env K) (hE : IsExp env) (hA : Poly.eval R.A env.x ≠ 0) :
     ∃ e, expandcanonicalSrc (sgn expandcanonicalSign) ecReversed ecDen R = some e ∧ e.eval env = R.value env :=
   expandcanonicalSrc_value R env (Or.inl (by simp [sgn, expandcanonicalSign])) hE.1
+example : Poly.eval exQ.A envQ.x ≠ 0 := by norm_num [exQ, envQ, Poly.eval]
 
 /-- **expand_response_value** (`expand_response()`, `as_sum()`): the numerator expanded into terms, each over the
-    polynomial denominator; no hypothesis on the point (both sides are 0 by convention at a pole). -/
-theorem expand_response_value (R : RF K) (env : Env K) (hE : IsExp env) :
+    polynomial denominator; stated at non-pole points (`hA`) — at a pole both sides would agree only through `x/0 = 0`. -/
+theorem expand_response_value (R : RF K) (env : Env K) (hE : IsExp env) (hA : Poly.eval R.A env.x ≠ 0) :
     (expandResponse R).eval env = R.value env :=
   expandResponse_value R env hE.1
+example : Poly.eval exQ.A envQ.x ≠ 0 := by norm_num [exQ, envQ, Poly.eval]
 
 /-! ## 6. `simplify_factors`, `simplify_terms`: the loops around SymPy's simplifier
 
@@ -174,8 +181,8 @@ theorem simplify_terms_value (simp : RExpr K → RExpr K) (env : Env K)
 example : ∀ e : RExpr ℚ, (id e).eval envQ = e.eval envQ := fun _ => rfl
 example : rfFactors exQ ≠ [] := by simp [rfFactors]
 
-/-- the factors / terms the driver runs the loops on have the value of the expression -/
-theorem factors_of_expression (R : RF K) (env : Env K) (hE : IsExp env) :
+/-- the factors / terms the driver runs the loops on have the value of the expression (at non-pole points, `hA`) -/
+theorem factors_of_expression (R : RF K) (env : Env K) (hE : IsExp env) (hA : Poly.eval R.A env.x ≠ 0) :
     ((rfFactors R).map (fun e => e.eval env)).prod = R.value env ∧
     ((rfTerms R R.B 0).map (fun e => e.eval env)).sum = R.value env := by
   refine ⟨rfFactors_value R env hE.1, ?_⟩
